@@ -512,6 +512,17 @@ def run_type(t):
     return ';'.join(out)
 
 
+def run_tsize(t):
+    """type-level size facts only (also for types whose values are astronomically large)"""
+    T = mk_type(t)
+    out = []
+    out.append('p.fixed=%s' % E(lambda: str(int(T.is_fixed_byte_length()))))
+    out.append('p.flen=%s' % E(lambda: str(T.type_byte_length())))
+    out.append('p.min=%s' % E(lambda: str(T.min_byte_length())))
+    out.append('p.max=%s' % E(lambda: str(T.max_byte_length())))
+    return ';'.join(out)
+
+
 def foreign_type(t, v):
     """a type of the same kind in which the (invalid for t) value v is valid: wider uint, other limit / length"""
     k = kind(t)
@@ -592,7 +603,12 @@ def apply_op(t, x, op):
     elif k == 'chg':
         sel = int(op[1])
         opts = t[1:]
-        if sel < len(opts) and opts[sel] != 'none':
+        if sel < 0:
+            # a negative selector is not a selector: whatever value comes with it (here: a valid value of the option
+            # that python's negative indexing would pick)
+            o = opts[sel] if -len(opts) <= sel else None
+            x.change(selector=sel, value=(None if o in (None, 'none') else elem_arg(o, op[2])))
+        elif sel < len(opts) and opts[sel] != 'none':
             x.change(selector=sel, value=elem_arg(opts[sel], op[2]))
         elif sel < len(opts) and op[2] != 'none':
             x.change(selector=sel, value=mk_val_any(op[2]))
@@ -1070,6 +1086,8 @@ def run_case(line):
         return run_val(c[1], c[2])
     if k == 'type':
         return run_type(c[1])
+    if k == 'tsize':
+        return run_tsize(c[1])
     if k == 'hist':
         return run_hist(c[1], c[2], c[3:])
     if k == 'histf':
